@@ -22,7 +22,7 @@
 (* An instruction kind this module does not know makes the listing         *)
 (* "unknown" (not judged), never a violation.                              *)
 (***************************************************************************)
-EXTENDS Integers, Sequences, FiniteSets, Json, IOUtils, TLC
+EXTENDS VMEffects, FiniteSets, Json, IOUtils, TLC
 
 ASSUME TLCSet(11, ndJsonDeserialize(IOEnv.VERIF_TRACE))
 Funcs == TLCGet(11)      \* each: [id, name, kind ("fn"|"chunk"), nargs, varargs, instrs]
@@ -90,36 +90,28 @@ Step ==
             IF Len(cells) < 1 THEN Bad("underflow")
             ELSE \/ Go(pc + 1, Drop(cells, 1), sd)
                  \/ Go(pc + I.n, Drop(cells, 1), sd)
-       [] op \in {"push", "pushlazy", "envtostack", "createclosure"} -> PopPush(0, 1)
        [] op = "pushmarker" -> Go(pc + 1, Append(cells, MC), sd)
+       [] op = "pushmark" -> Go(pc + 1, Append(cells, <<"mark", I.sym>>), sd)
        [] op = "pop" ->
             (* PopInstr tolerates an empty stack; only the chunk-joining pop may rely on it *)
             IF Len(cells) = 0 THEN (IF F.kind = "chunk" /\ pc = 0 THEN Go(pc + 1, cells, sd) ELSE Bad("pop-on-empty"))
             ELSE Go(pc + 1, Drop(cells, 1), sd)
-       [] op = "dup" -> IF Len(cells) < 1 THEN Bad("underflow") ELSE PopPush(0, 1)
-       [] op \in {"popstackputenv", "update", "bindlist"} -> PopPush(1, 0)
-       [] op = "assign" -> PopPush(2, 0)
-       [] op = "call" -> PopPush(I.n, 1)
-       [] op = "callexpr" -> PopPush(0, 1)
-       [] op = "dispatch" -> PopPush(I.n + 1, 1)
+       [] op \in {"break", "continue"} ->
+            LET p == LoopPos(I.loop) IN
+            IF p < 0 THEN Bad("no-loop") ELSE Go(p + I.off, cells, sd + Eff(I)[3])
+       [] Eff(I) # <<>> ->      \* the instructions with a fixed effect: the table of VMEffects
+            LET e == Eff(I) IN
+            IF Len(cells) < e[1] THEN Bad("underflow") ELSE Go(pc + 1, Drop(cells, e[1]) \o V(e[2]), sd + e[3])
        [] op = "return" ->
             IF Len(cells) = 1 /\ sd = 0 THEN st' = "done" /\ UNCHANGED <<fi, pc, cells, sd>>
             ELSE Bad(IF sd # 0 THEN "return-scopes" ELSE "return-height")
        [] op = "returnerr" -> st' = "done" /\ UNCHANGED <<fi, pc, cells, sd>>
-       [] op \in {"addscope", "addfuncscope"} -> Go(pc + 1, cells, sd + 1)
-       [] op = "removescope" -> Go(pc + 1, cells, sd - 1)
-       [] op = "popscopetodata" -> Go(pc + 1, Append(cells, VC), sd - 1)
        [] op = "explode" ->   \* a list of unknown length is spread: 0, 1 or 2 values
             IF Len(cells) < 1 THEN Bad("underflow")
             ELSE \E k \in 0..2 : Go(pc + 1, Drop(cells, 1) \o V(k), sd)
        [] op \in {"squash", "vectorize", "hashize"} ->
             LET i == LastIndex(cells, MC) IN
             IF i = 0 THEN Bad("no-marker") ELSE Go(pc + 1, Append(SubSeq(cells, 1, i - 1), VC), sd)
-       [] op \in {"label", "loopstart", "debug"} -> Go(pc + 1, cells, sd)
-       [] op \in {"break", "continue"} ->
-            LET p == LoopPos(I.loop) IN
-            IF p < 0 THEN Bad("no-loop") ELSE Go(p + I.off, cells, sd - I.n)
-       [] op = "pushmark" -> Go(pc + 1, Append(cells, <<"mark", I.sym>>), sd)
        [] op = "popuntilmark" ->
             LET i == LastIndex(cells, <<"mark", I.sym>>) IN
             IF i = 0 THEN Bad("no-mark") ELSE Go(pc + 1, SubSeq(cells, 1, i), sd)
